@@ -225,40 +225,50 @@ structure LabelState where
   dc : Int
   msgs : Msgs := {}
 
+/-- one iteration of the loop of `get_labels`, before the end-of-memory test: the new state, and whether the iteration
+    ended with `continue` -/
+def labelCore (st : CSettings) (s : LabelState) (op : SOp) : LabelState × Bool :=
+  let args := op.args
+  if op.cls = .LABEL then
+    (match args with
+     | [k] =>
+       if outOfRange s.pc then
+         { s with tab := s.tab.set k (.label 0), msgs := s.msgs.err "label is past the end of the 16-bit address space" op.loc }
+       else { s with tab := s.tab.set k (.label s.pc) }
+     | _ => s, false)
+  else if op.cls = .DLABEL then
+    (match args with
+     | [k] => { s with tab := s.tab.set k (if outOfRange s.dc then .dlabel 0 else .dlabel s.dc) }
+     | _ => s, false)
+  else if op.cls = .CONSTANT then
+    (match args with
+     | [k, .int v] => { s with consts := (k, v) :: s.consts }
+     | [k, x] =>                -- `constants.get(x, x)`: the value of an already declared constant ...
+       (match s.consts.find? (fun p => p.1 == x) with
+        | some p => { s with consts := (k, p.2) :: s.consts }
+        | none => s)            -- ... else Constant("text") raises ValueError, suppressed (numeric strings are not modelled)
+     | _ => s, false)
+  else if op.cls = .INTEGER then ({ s with dc := s.dc + 1 }, false)
+  else if op.cls = .LP_STRING then
+    (match args with | [.str x] => { s with dc := s.dc + x.length + 1 } | _ => s, false)
+  else if op.cls = .DSKIP then
+    (match args with
+     | [.int n] => { s with dc := s.dc + n }
+     | [k] => (match s.consts.find? (fun p => p.1 == k) with | some p => { s with dc := s.dc + p.2 } | none => s)
+     | _ => s, false)
+  else if isDebugSkipped st op.cls then (s, true)
+  else ({ s with pc := s.pc + operationLength op }, false)
+
+/-- one iteration of the loop of `get_labels` -/
+def labelStep (st : CSettings) (s : LabelState) (op : SOp) : LabelState :=
+  let r := labelCore st s op
+  if r.2 then r.1
+  else if outOfRange r.1.dc && !outOfRange s.dc then { r.1 with msgs := r.1.msgs.err "past the end of available memory" op.loc }
+  else r.1
+
 /-- `get_labels` -/
 def getLabels (prog : List SOp) (st : CSettings) : SymTab × Msgs :=
-  let step (s : LabelState) (op : SOp) : LabelState :=
-    let odc := s.dc
-    let args := op.args
-    let (s, skip) : LabelState × Bool :=
-      if op.cls = .LABEL then
-        (match args with | [k] => { s with tab := s.tab.set k (.label s.pc) } | _ => s, false)
-      else if op.cls = .DLABEL then
-        (match args with
-         | [k] => { s with tab := s.tab.set k (if outOfRange s.dc then .dlabel 0 else .dlabel s.dc) }
-         | _ => s, false)
-      else if op.cls = .CONSTANT then
-        (match args with
-         | [k, .int v] => { s with consts := (k, v) :: s.consts }
-         | [k, x] =>                -- `constants.get(x, x)`: the value of an already declared constant ...
-           (match s.consts.find? (fun p => p.1 == x) with
-            | some p => { s with consts := (k, p.2) :: s.consts }
-            | none => s)            -- ... else Constant("text") raises ValueError, suppressed (numeric strings are not modelled)
-         | _ => s, false)
-      else if op.cls = .INTEGER then ({ s with dc := s.dc + 1 }, false)
-      else if op.cls = .LP_STRING then
-        (match args with | [.str x] => { s with dc := s.dc + x.length + 1 } | _ => s, false)
-      else if op.cls = .DSKIP then
-        (match args with
-         | [.int n] => { s with dc := s.dc + n }
-         | [k] => (match s.consts.find? (fun p => p.1 == k) with | some p => { s with dc := s.dc + p.2 } | none => s)
-         | _ => s, false)
-      else if isDebugSkipped st op.cls then (s, true)
-      else ({ s with pc := s.pc + operationLength op }, false)
-    if skip then s
-    else if outOfRange s.dc && !outOfRange odc then { s with msgs := s.msgs.err "past the end of available memory" op.loc }
-    else s
-  let s := prog.foldl step { dc := st.data_start }
+  let s := prog.foldl (labelStep st) { dc := st.data_start }
   (s.tab, s.msgs)
 
 /-- `looks_like_a_CONSTANT` and the value that `typecheck` enters for it: a literal, or the value of a constant that is
@@ -325,38 +335,49 @@ structure ROp where
   orig : Nat
 deriving Repr, DecidableEq, Inhabited
 
+/-- the first half of one iteration of `convert_ops`: a relative branch to a label gets its displacement (or the
+    "too far" error), every other operation has its symbols substituted -/
+def convStep (tab : SymTab) (pc : Int) (op : SOp) (m : Msgs) : Except PyErr (SOp × Msgs) :=
+  let relLabel : Option Int :=
+    if op.cls.isRelativeBranch then
+      match op.toks with
+      | .sym s :: _ => (match tab.get? (.str s) with
+        | some (.const _) => none
+        | some v => some v.val
+        | none => none)
+      | _ => none
+    else none
+  let isRelSym : Bool := op.cls.isRelativeBranch && (match op.toks with | .sym _ :: _ => true | _ => false)
+  match relLabel with
+  | some target =>
+    let jump := target - pc
+    if jump < -128 ∨ jump ≥ 128 then
+      .ok (op, m.err "label is too far for a relative branch" (tokLoc op.loc 0))
+    else .ok ({ op with toks := (Tok.int jump) :: op.toks.drop 1 }, m)
+  | none =>
+    if isRelSym && (match op.toks with | .sym s :: _ => (tab.get? (.str s)).isNone | _ => false) then .error .KeyError
+    else do
+      let o ← substituteLabel op tab
+      pure (o, m)
+
+def toROps (newOps : List Enc.DOp) (loc : Int) (k : Nat) : List ROp :=
+  newOps.map (fun d => { cls := d.cls, toks := d.toks, loc := loc, orig := k })
+
+/-- the loop of `convert_ops` -/
+def convGo (tab : SymTab) : List SOp → Nat → Int → List ROp → Msgs → Except PyErr (List ROp × Msgs)
+  | [], _, _, acc, m => .ok (acc, m)
+  | op :: rest, k, pc, acc, m =>
+    match convStep tab pc op m with
+    | .error e => .error e
+    | .ok (op', m) =>
+      match Gen.convert op'.cls op'.toks with
+      | .error e => .error e
+      | .ok newOps =>
+        convGo tab rest (k + 1) (if op.cls.isDataOp then pc else pc + newOps.length) (acc ++ toROps newOps op.loc k) m
+
 /-- `convert_ops` -/
 def convertOps (ops : List SOp) (tab : SymTab) : Except PyErr (List ROp × Msgs) :=
-  let rec go : List SOp → Nat → Int → List ROp → Msgs → Except PyErr (List ROp × Msgs)
-    | [], _, _, acc, m => .ok (acc, m)
-    | op :: rest, k, pc, acc, m => do
-      let relLabel : Option Int :=
-        if op.cls.isRelativeBranch then
-          match op.toks with
-          | .sym s :: _ => (match tab.get? (.str s) with
-            | some (.const _) => none
-            | some v => some v.val
-            | none => none)
-          | _ => none
-        else none
-      let isRelSym : Bool := op.cls.isRelativeBranch && (match op.toks with | .sym _ :: _ => true | _ => false)
-      let (op', m) ←
-        (match relLabel with
-         | some target =>
-           let jump := target - pc
-           if jump < -128 ∨ jump ≥ 128 then
-             (.ok (op, m.err "label is too far for a relative branch" (tokLoc op.loc 0)) : Except PyErr (SOp × Msgs))
-           else .ok ({ op with toks := (Tok.int jump) :: op.toks.drop 1 }, m)
-         | none =>
-           if isRelSym && (match op.toks with | .sym s :: _ => (tab.get? (.str s)).isNone | _ => false) then .error .KeyError
-           else do
-             let o ← substituteLabel op tab
-             pure (o, m))
-      let newOps ← Gen.convert op'.cls op'.toks
-      let acc := acc ++ newOps.map (fun d => { cls := d.cls, toks := d.toks, loc := op.loc, orig := k })
-      let pc := if op.cls.isDataOp then pc else pc + newOps.length
-      go rest (k + 1) pc acc m
-  go ops 0 0 [] {}
+  convGo tab ops 0 0 [] {}
 
 structure CProgram where
   data : List ROp := []
